@@ -570,6 +570,34 @@ func runCheck(id, tier string) int {
 			}
 		}
 	}
+	// 4b. audit of the reference model against python-jsonschema (thorough tier of C01; evidence about the oracle, not a deciding step)
+	if tier == "thorough" && p.Audit && len(violations) == 0 {
+		dump := filepath.Join(work, "audit.jsonl")
+		ctx, cancel := context.WithTimeout(context.Background(), 10*time.Minute)
+		runProc(ctx, "auditdump", bins[0], []string{"-test.run", "^TestAuditDump$", "-rapid.checks", "8000", "-rapid.seed", strconv.FormatInt(base, 10), "-rapid.nofailfile", "-test.timeout", "9m"},
+			[]string{"VERIF_AUDIT_OUT=" + dump, "VERIF_TIER=" + tier}, work, "")
+		cancel()
+		cmd := exec.Command(filepath.Join(root, "tools", "audit_refmodel.py"), dump)
+		cmd.Dir = root
+		if o, err := cmd.Output(); err == nil {
+			var res struct {
+				Compared, Agree, Skipped int64
+				Disagreements            []json.RawMessage
+			}
+			if json.Unmarshal(bytes.TrimSpace(o), &res) == nil {
+				m.Counters["oracle_audit_python_jsonschema_pairs_compared"] = res.Compared
+				m.Counters["oracle_audit_python_jsonschema_pairs_agreeing"] = res.Agree
+				m.Counters["oracle_audit_python_jsonschema_pairs_skipped"] = res.Skipped
+				for i, d := range res.Disagreements {
+					if i < 5 {
+						m.Notes = append(m.Notes, "oracle audit disagreement with python-jsonschema Draft4Validator: "+head(d, 600))
+					}
+				}
+			}
+		} else {
+			m.Notes = append(m.Notes, "oracle audit against python-jsonschema could not be run: "+err.Error())
+		}
+	}
 	if fuzzExecs > 0 {
 		m.Counters["native_fuzz_property_executions"] = fuzzExecs
 	}
